@@ -500,3 +500,352 @@ def c20_native():
             wit['observed'] = 'estimate_R0 = %s, expected %s' % (EoN.estimate_R0(G, tau=0.3, gamma=1.2), 0.2 * k2 / k1)
             return n, wit
     return n, None
+
+
+# ------------------------------------------------------------------------------------------------ C13
+def sis_reference(G, seeds, tmin, tmax, duration, delays):
+    """plain reference semantics: a node infected at s recovers at s+duration; it attempts transmission to each neighbour
+    at s+delay for EVERY listed delay (the property does not filter by the duration); an attempt infects iff the neighbour is
+    susceptible at that instant.  duration(u, k) / delays(u, v, k): k = how many times u has been infected before."""
+    status = {u: 'S' for u in G}
+    count = {u: 0 for u in G}
+    hist = {u: ([tmin], ['S']) for u in G}
+    events = []                       # (time, order, kind, u, v)
+    c = itertools.count()
+    def infect(u, t, first):
+        status[u] = 'I'
+        k = count[u]; count[u] += 1
+        if first and t == tmin:
+            hist[u] = ([tmin], ['I'])
+        else:
+            hist[u][0].append(t); hist[u][1].append('I')
+        d = duration(u, k)
+        if t + d < tmax:
+            heapq.heappush(events, (t + d, 0, next(c), 'rec', u, None))
+        for v in G.neighbors(u):
+            for dl in delays(u, v, k):
+                if t + dl < tmax:
+                    heapq.heappush(events, (t + dl, 1, next(c), 'att', u, v))
+    for s in seeds:
+        infect(s, tmin, True)
+    seen_times = set()
+    while events:
+        t, _, _, kind, u, v = heapq.heappop(events)
+        if t > tmin and round(t, 9) in seen_times:
+            return None               # two events at the same instant: outside the property's quantifier (distinct event times)
+        seen_times.add(round(t, 9))
+        if kind == 'rec':
+            status[u] = 'S'
+            hist[u][0].append(t); hist[u][1].append('S')
+        elif status[v] == 'S':
+            infect(v, t, False)
+    return hist
+
+
+UNSORTED = True
+
+
+def c13_native():
+    import EoN
+    n = 0
+    rng = random.Random(13)
+    for trial in range(150):
+        Nn = rng.randint(2, 6)
+        G = nx.gnp_random_graph(Nn, 0.6, seed=rng.randint(0, 10 ** 6))
+        nodes = list(G.nodes())
+        # distinct event times: incommensurable-ish deterministic values per (node, infection count) / (pair, count, index)
+        def duration(u, k):
+            return 0.731 + 0.413 * ((u * 7 + k * 3) % 5) + 0.0137 * u
+        def delays(u, v, k, unsorted=(UNSORTED and trial % 3 == 0)):
+            base = [0.211 + 0.397 * ((u * 5 + v * 3 + k) % 4) + 0.0071 * (u + 2 * v), 1.103 + 0.291 * ((u + v + k) % 3) + 0.0053 * (2 * u + v)]
+            m = (u + v + k) % 3
+            out = sorted(base)[:m]
+            return out[::-1] if unsorted else out
+        calls = {}
+        def rec_time_fxn(u):
+            k = calls.get(u, 0); calls[u] = k + 1
+            return duration(u, k)
+        def trans_time_fxn(u, v, dur):
+            k = calls[u] - 1
+            return [d for d in delays(u, v, k)]
+        seeds = rng.sample(nodes, rng.randint(1, min(2, Nn)))
+        tmin = rng.choice([0, 1.5])
+        tmax = tmin + rng.choice([2.0, 3.5, 5.0])
+        n += 1
+        wit = dict(edges=list(G.edges()), seeds=seeds, tmin=tmin, tmax=tmax, unsorted_delay_lists=(trial % 3 == 0))
+        try:
+            sim = EoN.fast_nonMarkov_SIS(G, trans_time_fxn=trans_time_fxn, rec_time_fxn=rec_time_fxn, initial_infecteds=seeds, tmin=tmin, tmax=tmax, return_full_data=True)
+        except Exception as e:
+            wit['observed'] = '%s: %s' % (type(e).__name__, e)
+            return n, wit
+        want = sis_reference(G, seeds, tmin, tmax, duration, lambda u, v, k: [d for d in delays(u, v, k) if True])
+        if want is None:
+            n -= 1
+            continue
+        for u in nodes:
+            ht, hs = sim.node_history(u)
+            a = [(round(float(x), 9), s) for x, s in zip(ht, hs)]
+            b = [(round(float(x), 9), s) for x, s in zip(*want[u])]
+            if a != b:
+                wit['observed'] = 'history of node %s is %s, the reference semantics gives %s' % (u, a, b)
+                return n, wit
+    return n, None
+
+
+# ------------------------------------------------------------------------------------------------ C03
+class ScriptedRandom:
+    """replacement for the `random` module inside EoN.simulation: records the rate of every expovariate call, returns a
+    fixed waiting time, plays back `first_us` for the first uniform draws and then a seeded stream"""
+
+    def __init__(self, seed, first_us=(), dt=0.125):
+        self.rng = random.Random(seed)
+        self.first = list(first_us)
+        self.dt = dt
+        self.rates = []
+
+    def expovariate(self, rate):
+        self.rates.append(rate)
+        return self.dt
+
+    def random(self):
+        if self.first:
+            return self.first.pop(0)
+        return self.rng.random()
+
+    def choice(self, seq):
+        return seq[self.rng.randrange(len(seq))]
+
+    def sample(self, pop, k):
+        return self.rng.sample(list(pop), k)
+
+
+def c03_specs():
+    specs = []
+    def dg(edges):
+        D = nx.DiGraph()
+        for a, b, attrs in edges:
+            D.add_edge(a, b, **attrs)
+        return D
+    specs.append(('SIS', dg([('I', 'S', dict(rate=1.0))]), dg([(('I', 'S'), ('I', 'I'), dict(rate=2.0))]), ['S', 'I']))
+    specs.append(('SIR weighted', dg([('I', 'R', dict(rate=1.5, weight_label='nw'))]), dg([(('I', 'S'), ('I', 'I'), dict(rate=0.5, weight_label='ew'))]), ['S', 'I', 'R']))
+    specs.append(('SIRS', dg([('I', 'R', dict(rate=1.0)), ('R', 'S', dict(rate=0.25))]), dg([(('I', 'S'), ('I', 'I'), dict(rate=1.0))]), ['S', 'I', 'R']))
+    specs.append(('SEIR', dg([('E', 'I', dict(rate=0.7)), ('I', 'R', dict(rate=1.0))]), dg([(('I', 'S'), ('I', 'E'), dict(rate=1.3))]), ['S', 'E', 'I', 'R']))
+    specs.append(('competing', dg([('A', 'S', dict(rate=1.0)), ('B', 'S', dict(rate=0.5))]),
+                  dg([(('A', 'S'), ('A', 'A'), dict(rate=1.0)), (('B', 'S'), ('B', 'B'), dict(rate=2.0)), (('A', 'B'), ('A', 'A'), dict(rate=0.3))]), ['S', 'A', 'B']))
+    specs.append(('same-status pair rule', dg([('B', 'A', dict(rate=0.2))]), dg([(('A', 'A'), ('A', 'B'), dict(rate=1.0))]), ['A', 'B']))
+    specs.append(('rate functions', dg([('I', 'R', dict(rate=1.0, rate_function=lambda G, node: 1.0 + G.degree(node)))]),
+                  dg([(('I', 'S'), ('I', 'I'), dict(rate=1.0, rate_function=lambda G, u, v: 0.5 + 0.25 * (G.degree(u) + G.degree(v))))]), ['S', 'I', 'R']))
+    return specs
+
+
+def c03_rates(G, H, J, status):
+    """independent recomputation of every enabled transition and its rate from the current statuses"""
+    out = {}
+    for a, b, d in H.edges(data=True):
+        for u in G:
+            if status[u] == a:
+                w = G.nodes[u][d['weight_label']] if 'weight_label' in d else (d['rate_function'](G, u) if 'rate_function' in d else 1.0)
+                out[('spont', a, b, u)] = d['rate'] * w
+    for (a1, a2), (b1, b2), d in J.edges(data=True):
+        for u in G:
+            for v in G.neighbors(u):
+                if status[u] == a1 and status[v] == a2:
+                    w = G.adj[u][v][d['weight_label']] if 'weight_label' in d else (d['rate_function'](G, u, v) if 'rate_function' in d else 1.0)
+                    out[('ind', (a1, a2), (b1, b2), u, v)] = d['rate'] * w
+    return out
+
+
+def c03_native():
+    import EoN
+    import EoN.simulation as sim_mod
+    n = 0
+    rng = random.Random(3)
+    graphs = []
+    G = nx.Graph(); G.add_edges_from([(0, 1), (1, 2), (2, 0), (2, 3)]); G.add_node(4); graphs.append(('undirected', G))
+    D = nx.DiGraph(); D.add_edges_from([(0, 1), (1, 2), (2, 0), (3, 2), (1, 3)]); graphs.append(('directed', D))
+    for _, g in graphs:
+        for u, v in g.edges():
+            g[u][v]['ew'] = 1.0 + ((u + 2 * v) % 3) * 0.5
+        for u in g:
+            g.nodes[u]['nw'] = 1.0 + (u % 2) * 0.5
+    old = sim_mod.random
+    try:
+        for gname, Gx in graphs:
+            for sname, H, J, statuses in c03_specs():
+                for trial in range(6):
+                    IC = {u: rng.choice(statuses) for u in Gx}
+                    # ---- (a) every step: clock rate == total enabled rate of the CURRENT statuses; the event is an enabled transition
+                    src = ScriptedRandom(trial)
+                    sim_mod.random = src
+                    n += 1
+                    wit = dict(graph=gname, edges=list(Gx.edges()), model=sname, IC=dict(IC))
+                    try:
+                        sim = EoN.Gillespie_simple_contagion(Gx, H, J, dict(IC), statuses, tmax=3.0, return_full_data=True)
+                    except Exception as e:
+                        wit['observed'] = '%s: %s' % (type(e).__name__, e)
+                        return n, wit
+                    finally:
+                        sim_mod.random = old
+                    t = sim.t()
+                    status = dict(IC)
+                    events = sorted(((float(tt), u) for u in Gx for tt in sim.node_history(u)[0][1:]))
+                    k = 0
+                    if True:
+                        rates = c03_rates(Gx, H, J, status)
+                        for step, rate_used in enumerate(src.rates):
+                            total = sum(rates.values())
+                            if abs(rate_used - total) > 1e-9 * max(1.0, total):
+                                wit['observed'] = 'step %d: waiting time drawn with rate %s, the enabled transitions sum to %s (statuses %s)' % (step, rate_used, total, status)
+                                return n, wit
+                            tt = 0.125 * (step + 1)
+                            if tt >= 3.0:
+                                break
+                            changed = [u for u in Gx if any(abs(float(x) - tt) < 1e-12 for x in sim.node_history(u)[0][1:])]
+                            if len(changed) != 1:
+                                wit['observed'] = 'step %d at time %s: %d nodes change status (exactly one expected)' % (step, tt, len(changed))
+                                return n, wit
+                            u = changed[0]
+                            idx = [i for i, x in enumerate(sim.node_history(u)[0]) if i > 0 and abs(float(x) - tt) < 1e-12][0]
+                            new = sim.node_history(u)[1][idx]
+                            ok = any((key[0] == 'spont' and key[3] == u and key[1] == status[u] and key[2] == new) or
+                                     (key[0] == 'ind' and key[4] == u and key[1][1] == status[u] and key[2][1] == new) for key, r in rates.items() if r > 0)
+                            if not ok:
+                                wit['observed'] = 'step %d: node %s turns %s -> %s, which is not an enabled transition (statuses %s)' % (step, u, status[u], new, status)
+                                return n, wit
+                            status[u] = new
+                            rates = c03_rates(Gx, H, J, status)
+                        if sum(rates.values()) > 0 and len(src.rates) * 0.125 < 3.0 and False:
+                            pass
+                    # ---- (b) first event: over a grid of uniform draws, each transition TYPE is selected with its rate share
+                    rates0 = c03_rates(Gx, H, J, IC)
+                    total0 = sum(rates0.values())
+                    if total0 <= 0:
+                        continue
+                    share = {}
+                    for key, r in rates0.items():
+                        typ = key[:3]
+                        share[typ] = share.get(typ, 0.0) + r / total0
+                    grid = 400
+                    got = {}
+                    for i in range(grid):
+                        src = ScriptedRandom(i, [(i + 0.5) / grid])
+                        sim_mod.random = src
+                        try:
+                            s1 = EoN.Gillespie_simple_contagion(Gx, H, J, dict(IC), statuses, tmax=0.2, return_full_data=True)
+                        finally:
+                            sim_mod.random = old
+                        ch = [(u, s1.node_history(u)[1][1]) for u in Gx if len(s1.node_history(u)[0]) > 1]
+                        if len(ch) != 1:
+                            continue
+                        u, new = ch[0]
+                        tr = s1.transmissions()
+                        typ = None
+                        for key in rates0:
+                            if key[0] == 'spont' and key[3] == u and key[2] == new and not [x for x in tr if x[2] == u and x[1] is not None]:
+                                typ = key[:3]
+                            if key[0] == 'ind' and key[4] == u and key[2][1] == new and [x for x in tr if x[2] == u and x[1] == key[3]]:
+                                typ = key[:3]
+                        got[typ] = got.get(typ, 0) + 1
+                    for typ, p in share.items():
+                        if abs(got.get(typ, 0) / grid - p) > 2.0 / grid + 1e-9:
+                            wit['observed'] = 'first event: transition %s selected for a fraction %.4f of the uniform draws, its rate share is %.4f' % (typ, got.get(typ, 0) / grid, p)
+                            return n, wit
+    finally:
+        sim_mod.random = old
+    return n, None
+
+
+# ------------------------------------------------------------------------------------------------ C02
+def sis_master_equation(G, tau_uv, gamma_u, init, T):
+    """exact state distribution at time T of the network SIS chain (all 2^n states; n <= 4)"""
+    from scipy.linalg import expm
+    nodes = list(G.nodes())
+    n = len(nodes)
+    idx = {u: i for i, u in enumerate(nodes)}
+    Qm = np.zeros((2 ** n, 2 ** n))
+    for s in range(2 ** n):
+        for u in nodes:
+            i = idx[u]
+            if s >> i & 1:
+                Qm[s, s & ~(1 << i)] += gamma_u(u)
+            else:
+                r = sum(tau_uv(v, u) for v in (G.predecessors(u) if G.is_directed() else G.neighbors(u)) if s >> idx[v] & 1)
+                if r:
+                    Qm[s, s | (1 << i)] += r
+        Qm[s, s] = -Qm[s].sum()
+    s0 = sum(1 << idx[u] for u in init)
+    p = np.zeros(2 ** n); p[s0] = 1.0
+    return p @ expm(Qm * T), idx
+
+
+def c02_native(runs=6000):
+    """(1) Gillespie_SIS under a scripted random source: every waiting time is drawn with the total rate of the CURRENT
+    state; (2) fast_SIS and Gillespie_SIS: empirical state distribution at time tmin+T against the master equation
+    (fixed seeds; tolerance 6 standard errors)"""
+    import EoN
+    import EoN.simulation as sim_mod
+    n = 0
+    G = nx.Graph(); G.add_edges_from([(0, 1), (1, 2), (2, 3), (1, 3)])
+    ew = {(0, 1): 1.0, (1, 2): 2.0, (2, 3): 0.5, (1, 3): 1.5}
+    for (u, v), w in ew.items():
+        G[u][v]['w'] = w
+    for u in G:
+        G.nodes[u]['r'] = 1.0 + 0.5 * (u % 2)
+    tau, gamma = 0.8, 1.1
+    # ---- (1)
+    old = sim_mod.random
+    try:
+        for weighted in (False, True):
+            for trial in range(8):
+                n += 1
+                src = ScriptedRandom(100 + trial)
+                sim_mod.random = src
+                kw = dict(transmission_weight='w', recovery_weight='r') if weighted else {}
+                wit = dict(simulator='Gillespie_SIS', weighted=weighted, edges=list(G.edges(data='w')), initial_infecteds=[0, 2], tau=tau, gamma=gamma)
+                try:
+                    sim = EoN.Gillespie_SIS(G, tau, gamma, initial_infecteds=[0, 2], tmin=-1.0, tmax=4.0, return_full_data=True, **kw)
+                except Exception as e:
+                    wit['observed'] = '%s: %s' % (type(e).__name__, e)
+                    return n, wit
+                finally:
+                    sim_mod.random = old
+                for step, rate_used in enumerate(src.rates):
+                    tt = -1.0 + 0.125 * step
+                    st = sim.get_statuses(time=tt)
+                    tw = (lambda a, b: G[a][b]['w']) if weighted else (lambda a, b: 1.0)
+                    rw = (lambda a: G.nodes[a]['r']) if weighted else (lambda a: 1.0)
+                    total = gamma * sum(rw(u) for u in G if st[u] == 'I') + tau * sum(tw(u, v) for u in G for v in G.neighbors(u) if st[u] == 'I' and st[v] == 'S')
+                    if abs(rate_used - total) > 1e-9 * max(1, total):
+                        wit['observed'] = 'step %d: waiting time drawn with rate %s, the current state %s has total rate %s' % (step, rate_used, st, total)
+                        return n, wit
+    finally:
+        sim_mod.random = old
+    # ---- (2)
+    P = nx.path_graph(3)
+    P[0][1]['w'] = 1.0; P[1][2]['w'] = 2.0
+    for u in P:
+        P.nodes[u]['r'] = 1.0 + 0.5 * (u % 2)
+    T = 1.2
+    sims = {'fast_SIS': EoN.fast_SIS, 'Gillespie_SIS': EoN.Gillespie_SIS}
+    for name, f in sims.items():
+        for weighted in (False, True):
+            for tmin in (0, -6, 2.5):
+                n += 1
+                kw = dict(transmission_weight='w', recovery_weight='r') if weighted else {}
+                tw = (lambda a, b: tau * P[a][b]['w']) if weighted else (lambda a, b: tau)
+                rw = (lambda a: gamma * P.nodes[a]['r']) if weighted else (lambda a: gamma)
+                want, idx = sis_master_equation(P, tw, rw, [1], T)
+                got = np.zeros(8)
+                random.seed(12345 + n); np.random.seed(12345 + n)
+                for _ in range(runs):
+                    sim = f(P, tau, gamma, initial_infecteds=[1], tmin=tmin, tmax=tmin + T + 0.5, return_full_data=True, **kw)
+                    st = sim.get_statuses(time=tmin + T)
+                    got[sum(1 << idx[u] for u in P if st[u] == 'I')] += 1
+                got /= runs
+                se = np.sqrt(np.maximum(want * (1 - want), 1e-4) / runs)
+                worst = int(np.argmax(np.abs(got - want) / se))
+                if abs(got[worst] - want[worst]) > 6 * se[worst]:
+                    return n, dict(simulator=name, weighted=weighted, tmin=tmin, horizon=T, tau=tau, gamma=gamma, graph='path 0-1-2 (weights 1, 2; node weights 1, 1.5, 1)', runs=runs,
+                                   observed='state %s (bit i = node i infected) at time tmin+%s has empirical probability %.4f, the master equation gives %.4f (6 standard errors = %.4f)' % (
+                                       format(worst, '03b')[::-1], T, got[worst], want[worst], 6 * se[worst]))
+    return n, None
